@@ -10,8 +10,17 @@ from vlib import darwin_ref as D
 U64 = (1 << 64) - 1
 
 
+# Small negative numbers as the kernel records them (an int argument is sign- or zero-extended into the 64-bit slot):
+# Darwin's interfaces give several of them a meaning (AT_FDCWD = -2, an invalid descriptor -1, MAP_FAILED, lengths of
+# -1 ...).  A decoder that starts naming one of them takes a branch no random 64-bit word ever reaches.
+SENTINEL_WORDS = tuple((-k) & 0xffffffff for k in range(1, 9)) + tuple((-k) & ((1 << 64) - 1) for k in range(1, 9)) + \
+    tuple(((-k) & 0xffffffff) | (1 << 32) for k in (1, 2, 3))
+
+
 def rng_word(rng):
     c = rng.random()
+    if c > 0.94:
+        return rng.choice(SENTINEL_WORDS)
     if c < 0.25:
         return rng.randrange(0, 300)
     if c < 0.45:
